@@ -239,6 +239,11 @@ def nodes_from_node_expression(
                     fn_pairs.add((rk, rv))
         if len(fn_pairs) > 1:
             warn(Warning("More than one FunctionExpression found. Using the first one."))
+        if len(fn_pairs) < 1:
+            raise ReportableRuntimeError(
+                "The node expression {} is none of sh:this, a constant, a path, union, intersection, filter shape "
+                "or function expression.".format(expr)
+            )
         fnexpr, fnargslist = next(iter(fn_pairs))
         # find the function!
         try:
